@@ -378,7 +378,7 @@ def union_count(paths):
     return len(set(a))
 
 
-def run_job(prop, job, tier, seed, report):
+def run_job(prop, job, tier, seed, report, spec=None):
     """Runs one job; appends to `report`; returns list of violations (dicts with replay info)."""
     job.build(tier)
     n = int(job.runs[tier])
@@ -398,6 +398,7 @@ def run_job(prop, job, tier, seed, report):
         distinct_plans = union_count([os.path.join(tmpd, f) for f in files if f.endswith(".plans")])
         distinct_states = union_count([os.path.join(tmpd, f) for f in files if f.endswith(".states")])
         distinct_pairs = union_count([os.path.join(tmpd, f) for f in files if f.endswith(".pairs")])
+        distinct_cells = union_count([os.path.join(tmpd, f) for f in files if f.endswith(".cells")])
     finally:
         shutil.rmtree(tmpd, ignore_errors=True)
     wall = time.time() - t0
@@ -426,7 +427,7 @@ def run_job(prop, job, tier, seed, report):
         "runs_per_hour": int(n / wall * 3600) if wall > 0 else 0,
         "steps": stats.get("steps", 0), "steps_per_hour": int(stats.get("steps", 0) / wall * 3600) if wall > 0 else 0,
         "distinct_nontrivial_plans": distinct_plans, "distinct_model_states": distinct_states,
-        "distinct_state_op_pairs": distinct_pairs,
+        "distinct_state_op_pairs": distinct_pairs, "matrix_cells_hit": distinct_cells,
         "faults_fired": {k[6:]: v for k, v in sorted(stats.items()) if k.startswith("fault.")},
         "ops": {k[3:]: v for k, v in sorted(stats.items()) if k.startswith("op.")},
         "probes": {k[6:]: v for k, v in sorted(stats.items()) if k.startswith("probe.")},
@@ -438,6 +439,22 @@ def run_job(prop, job, tier, seed, report):
 
     known = load_known()
     violations = []
+    accept = spec.get("accept") if spec else None
+    if accept:
+        kept = []
+        for d in fails:
+            if accept(job.label, d["class"], d["site"], d["msg"]):
+                kept.append(d)
+            else:
+                key = (d["class"], d["site"])
+                report.setdefault("other_property_deviations", {})
+                e = report["other_property_deviations"].setdefault("%s @ %s" % key, {"count": 0, "first_run": d["run"], "engine": job.label})
+                e["count"] += 1
+        if len(kept) != len(fails):
+            log("# %d failing run(s) of %s show deviations that belong to other properties (not reported here): %s" % (
+                len(fails) - len(kept), job.label, sorted(report["other_property_deviations"])[:6]))
+        fails = kept
+        findings = {k: v for k, v in findings.items() if accept(job.label, k[0], k[1], "")}
     # findings reported by the engine itself (run continues): decided by the committed file
     for (cls, site), (cnt, first) in sorted(findings.items()):
         e = known_match(known, prop, cls, site)
@@ -481,7 +498,7 @@ def write_replay(prop, job, tier, seed, run, plan, viol, extra=None):
     return path
 
 
-def report_violation(prop, v, tier, seed):
+def report_violation(prop, v, tier, seed, accept=None):
     """Minimise, confirm in a fresh process, write the replay file, print the VIOLATION line."""
     job = v["job"]
     plan = job.gen_plan(seed, v["run"], tier)
@@ -503,6 +520,9 @@ def report_violation(prop, v, tier, seed):
     vi = dict(v)
     if final["status"] in ("fail", "crash"):
         vi.update({"class": final["class"], "step": final["step"], "site": final["site"], "msg": final["msg"]})
+        if accept and not accept(job.label, final["class"], final["site"], final["msg"]):
+            log("# a failing run of %s minimised to a deviation that belongs to another property (%s at %s); not reported here" % (job.label, final["class"], final["site"]))
+            return None
     path = write_replay(prop, job, tier, seed, v["run"], mini, vi, {
         "minimised": tries > 0, "minimiser_executions": tries, "original_steps": len(plan["steps"]), "note": note,
         "reproduced_in_fresh_process": final["status"] in ("fail", "crash") and final["class"] == target,
@@ -531,6 +551,8 @@ def write_evidence(prop, tier, seed, report, wall, nviol, spec):
         "stubbed_components": spec.get("stub", []),
     }
     cov.update(report.get("extra", {}))
+    if report.get("other_property_deviations"):
+        cov["other_property_deviations"] = report["other_property_deviations"]
     doc = {
         "property_id": prop, "tier": tier, "seed": seed, "level": spec.get("level", "exploration"),
         "coverage": cov, "assumptions": spec.get("assumptions", []), "wall_s": round(wall, 2), "violations": nviol,
@@ -552,20 +574,25 @@ def run_property(prop, tier, seed):
     report = {"jobs": [], "samples": [], "evaluations": 0, "distinct_nontrivial": 0, "known_findings": [], "extra": {}}
     violations = []
     for job in spec["jobs"]:
-        violations += run_job(prop, job, tier, seed, report)
+        violations += run_job(prop, job, tier, seed, report, spec)
     for extra in spec.get("extra_phases", []):
         violations += extra(prop, tier, seed, report)
     paths = []
-    for v in violations[:3]:
+    for v in violations[:12]:
+        if len(paths) >= 3:
+            break
         if "replay" in v:
             log("VIOLATION property=%s replay=%s" % (prop, v["replay"]))
             log("#   class=%s: %s" % (v.get("class"), v.get("msg")))
             paths.append(v["replay"])
         else:
-            paths.append(report_violation(prop, v, tier, seed))
+            pth = report_violation(prop, v, tier, seed, spec.get("accept"))
+            if pth:
+                paths.append(pth)
     wall = time.time() - t0
-    write_evidence(prop, tier, seed, report, wall, len(violations), spec)
-    if violations:
+    nviol = len(paths) if violations else 0
+    write_evidence(prop, tier, seed, report, wall, nviol, spec)
+    if nviol:
         return 1
     log("# %s %s: %d runs, %d distinct non-trivial plans, no violation, %.1fs" % (prop, tier, report["evaluations"], report["distinct_nontrivial"], wall))
     return 0
